@@ -280,8 +280,8 @@ def run(ctx):
     core.load_catii()
     warnings.simplefilter("ignore")
     reqs, pend = [], []
-    nwide = ctx.n(4, 40)
-    for it in range(ctx.n(30, 400) + nwide):
+    nwide = ctx.n(4, 80)
+    for it in range(ctx.n(30, 1500) + nwide):
         if it < nwide:      # extents straddling the narrow coordinate types of the array cube
             while True:
                 case = A.gen_case(ctx.rng, wide="u16" if (ctx.tier == "thorough" and it % 8 == 7) else "u8")
